@@ -200,7 +200,7 @@ func verifC03Posting(cfg c03PostCfg) {
 	text := head + line + eol + "  c:d" + eol
 	want.NPost, want.Acct1 = 2, "c:d"
 
-	if cx.knownTok("acct", text, len(head)+acctOff, TokenAccount) {
+	if cx.knownAcct(text, len(head)+acctOff, want.Account, false) {
 		return
 	}
 	if cx.knownAmounts(text, len(head), amts) {
@@ -235,8 +235,7 @@ func verifC03Posting(cfg c03PostCfg) {
 	zzverif.Reach("C03.posting.end")
 }
 
-// knownAmounts keys classes on what the real lexer does with the sign and the symbol of an
-// amount, and on the one number shape that normalizeNumber misreads.
+// knownAmounts: the classes of the sign, the symbol and the number of an amount.
 func (c *c03Ctx) knownAmounts(text string, base int, amts []c03AmtRef) bool {
 	for _, r := range amts {
 		a := r.a
@@ -244,28 +243,19 @@ func (c *c03Ctx) knownAmounts(text string, base int, amts []c03AmtRef) bool {
 			continue
 		}
 		start := base + r.off
-		if a.text[0] == '-' || a.text[0] == '+' {
-			if c.knownTok("sign", text, start, TokenSign) {
-				return true
+		if (a.text[0] == '-' || a.text[0] == '+') && c03TokAt(text, start) != int(TokenSign) {
+			// a sign in front of a left symbol is only taken for a sign when the symbol is a
+			// currency sign or letters directly followed by the number (lexer.go scanInLine,
+			// nextIsCurrencySymbol / nextIsLetterCommodity): not before a quoted symbol, not
+			// before a code that is separated from its number by a blank
+			if a.symOff == 1 && (a.sym.text[0] == '"' || (c03IsLetter(a.sym.text[0]) && a.numOff > a.symOff+len(a.sym.text))) {
+				if c.knownClass("c03-sign-before-quoted-or-spaced-symbol") {
+					return true
+				}
 			}
 		}
-		if a.symOff >= 0 {
-			t, ok := c03TokenAt(text, start+a.symOff)
-			isSym := ok && (t.Type == TokenCommodity || (t.Type == TokenText && a.sym.text[0] >= 'a' && a.sym.text[0] <= 'z'))
-			if !isSym {
-				tt := -1
-				if ok {
-					tt = int(t.Type)
-				}
-				if c.knownClass("c03-symbol-lexed-as-" + c03TokName(tt)) {
-					return true
-				}
-			} else if len(t.Value) != len(a.sym.sym) {
-				// right token type, but the token runs on beyond the symbol
-				if c.knownClass("c03-symbol-overrun-" + c03TokName(int(t.Type))) {
-					return true
-				}
-			}
+		if a.symOff >= 0 && c.knownSymbol(text, start+a.symOff, a.sym) {
+			return true
 		}
 		if a.num.exp3 && !a.num.ipZero {
 			if c.knownClass("c03-exp-three-after-mark") {
